@@ -2,6 +2,7 @@ import Driver.Proto
 import PqModel.DeltaGo
 import PqModel.DeltaKernel
 import PqModel.DeltaConf
+import PqModel.DeltaUnpack
 
 /-! Ops of C04 / DELTA encodings.
 
@@ -18,6 +19,8 @@ import PqModel.DeltaConf
   `notok` (the description is not a well-formed `ConfStream`): bytes and meaning of a stream of the conformant
   family (PqModel/DeltaConf.lean). `<blocks>`: `-` or blocks separated by `|`, each `<min delta>:<minis>:<stale>`,
   `<minis>` separated by `;`, each `<width>/<packed values>`; `<stale>` = width bytes of the unneeded miniblocks.
+* `delta.unpack32 <width> <n> <hex>` / `delta.unpack64 …` -> `ok <unsigned values>`: the mirror of the portable
+  `bitpack.Unpack` kernel (`goUnpackInt32` / `goUnpackInt64`) reading `n` values
 Value lists: comma separated hex strings, `e` = empty value, `-` = empty list. -/
 namespace Driver.Ops.C04Delta
 open Driver PqModel.Delta
@@ -99,6 +102,14 @@ def handle (toks : List String) : Option String :=
   match toks with
   | ["delta.conf32", bs, m, t, f, blocks] => some (confOp 32 bs m t f blocks)
   | ["delta.conf64", bs, m, t, f, blocks] => some (confOp 64 bs m t f blocks)
+  | ["delta.unpack32", w, n, h] => some <|
+    match parseNat? w, parseNat? n, parseHex? h with
+    | some w, some n, some bs => s!"ok {showList toString (PqModel.Rle.goUnpackInt32 w n (bytesIn bs))}"
+    | _, _, _ => "bad-op"
+  | ["delta.unpack64", w, n, h] => some <|
+    match parseNat? w, parseNat? n, parseHex? h with
+    | some w, some n, some bs => s!"ok {showList toString (goUnpackInt64 w n (bytesIn bs))}"
+    | _, _, _ => "bad-op"
   | ["delta.godecrest32", h] => some <|
     match parseHex? h with
     | some bs => goIntsRest (goDecode32 (bytesIn bs))
